@@ -109,9 +109,6 @@ Proof.
   rewrite forallb_forall in H. specialize (H _ Hin). cbn beta iota in H. apply N.eqb_eq in H. exact H.
 Qed.
 
-Lemma forallb_In : forall {A} (f : A -> bool) l x, forallb f l = true -> In x l -> f x = true.
-Proof. intros A f l x H Hin. rewrite forallb_forall in H. apply H. exact Hin. Qed.
-
 Lemma L_variant_fallback_documented : forall sty c, In sty ucd_styles -> In c ucd_domain -> ucd sty c = None ->
   fallback_ok sty c (plane1_char sty c) = true.
 Proof.
